@@ -39,6 +39,7 @@ func coverQF(o *Obligation) *Obligation {
 
 const extraPreamble = `(declare-fun str_contains (Str Str) Bool)
 (declare-fun inrange (Iface Iface) Bool)
+(declare-fun sep_count (Slice) (_ BitVec 64))
 `
 
 func (g *G) queryText(o *Obligation, withModel bool) string {
